@@ -19,8 +19,8 @@ PROPS_MODULE = 'Lm.Props.C06'
 PROPS_FILE = 'Lm/Props/C06.lean'
 LIB_SRCS = ['Lib/structs/queue.c', 'Lib/structs/list.c', 'Lib/utils/mem.c', 'Lib/utils/log.c']
 RULE = ('one evaluation = one complete schedule of {main: new, free} + submitters + pool workers under the cooperative '
-        'scheduler shim (PRNG-chosen runnable thread at every pthread_* call, container access, task start/end and API '
-        'boundary; spurious wake-ups injected; pthread_create failures injected in ~15% of the configurations), judged by '
+        'scheduler shim (PRNG-chosen runnable thread at every pthread_* call, queue/list access, first plain access to the '
+        'pool object after a scheduling point, task start/end and API boundary; spurious wake-ups injected; pthread_create failures injected in ~15% of the configurations), judged by '
         'the python monitor and replayed through the Lean transition system; non-trivial = at least two pool/submitter '
         'threads took turns, at least one task ran, and the trace differs from every other one')
 FLAVOURS = {0: 'eager', 1: 'lazy', 2: 'detached', 3: 'lazy+detached'}
@@ -80,7 +80,7 @@ def gen_configs(rng, n, big=False):
         for t in range(ntask):
             subs[rng.randrange(nsub)].append((t, rng.randint(0, 99)))
         fail = rng.choice([0, 1, 2, 3]) if rng.random() < 0.15 else -1
-        out.append(('g%d' % i, cfg_line(threads, flags, waitall, rng.randrange(1, 1 << 31), rng.choice([0, 5, 20, 40]), fail, subs)))
+        out.append(('%s%d' % ('b' if big else 'g', i), cfg_line(threads, flags, waitall, rng.randrange(1, 1 << 31), rng.choice([0, 5, 20, 40]), fail, subs)))
     return out
 
 
@@ -421,7 +421,9 @@ def main(tier, seed, replay_path):
     rep.cov['trusted_base'] = vlib.TRUSTED_BASE + [
         'C06 tie B is trace acceptance: harness/sched_shim.h replaces the pthread_* calls and the queue/list accessors inside thpool.c by '
         'scheduling points of a cooperative scheduler (harness/thpool_harness.c); POSIX semantics of mutex/condvar/join as encoded in Lm/Thpool.lean; '
-        'unlocked plain reads/writes inside thpool.c that are not behind a call (shutdown, alive, running_tasks) are not observed by the shim (TSan build in the thorough tier)']
+        'plain loads/stores of thpool.c are seen through compiler instrumentation (-fsanitize=thread pass, entry points provided by the harness): '
+        'their position is a scheduling point and feeds the happens-before race detector of the monitor, but which field is accessed is not matched '
+        'against the model (the model fires the pending internal steps of that thread there); real threads + the TSan runtime in the thorough tier']
     t0 = time.time()
     exe, log = build(True)
     if exe is None:
